@@ -1,9 +1,10 @@
 (* Extract/C06.v — extraction of the C06 model for the correspondence driver.
    Directives in force: only those of the two standard files required here. *)
 From Coq Require Extraction ExtrOcamlBasic ExtrOcamlZBigInt.
-From Verif Require Import Lib.Bytes Model.Wire Crypto.Sha256 Model.TxCodec Model.BlockCodec.
+From Verif Require Import Lib.Bytes Model.Wire Crypto.Sha256 Model.TxCodec Model.BlockCodec Model.TxStrict.
 Extraction Language OCaml.
 Extraction "../ocaml/c06_model.ml" bz zb be_bytes spec_ser spec_parse spec_txid strip_witness
   lib_parse lib_raw lib_calc_txid api_build view
   spec_block_parse spec_block_ser spec_block_hash spec_target
-  lib_block_parse lib_block_serialize lib_block_dict lib_target.
+  lib_block_parse lib_block_serialize lib_block_dict lib_target
+  lib_bsession sl_refuses lib_sig_ok.
